@@ -1472,3 +1472,89 @@ def gen_C18(rng, tier):
         c.query("Q", [op_completed(1, 1)]).ping().quit()
         out.append(c.build())
     return out
+
+
+# ------------------------------------------------------------------------------------------------
+# additions after the first round of independently seeded defects (see DESIGN.md, seeded/)
+def _c10_reprepare(rng, tier):
+    out = []
+    n = 24 if tier == "quick" else 200
+    for i in range(n):
+        c = Conv("C10-rp%03d" % i, mode=rng.choice(["lockstep", "pipelined"]))
+        sid = rng.choice([1, 7, 2**32 - 1])
+        variant = i % 4
+        if variant == 0:
+            # long data for the old incarnation must not reach the re-prepared statement
+            c.prepare("S", prep_ok(sid, [col("p", T_BLOB), col("q", T_LONG)], []))
+            c.cmd(com_long_data(sid, 0, b"for the old statement"))
+            c.prepare("S2", prep_ok(sid, [col("p", T_BLOB), col("q", T_LONG)], []))
+            c.execute(sid, [p_bytes(T_BLOB, b"inline"), p_int(T_LONG, 5)], [op_completed(1, 0)])
+        elif variant == 1:
+            # types bound for the old incarnation must be gone: a reuse execution cannot be decoded
+            c.prepare("S", prep_ok(sid, [col("p", T_LONGLONG)], []))
+            c.execute(sid, [p_int(T_LONGLONG, 77)], [op_completed(1, 0)])
+            c.prepare("S2", prep_ok(sid, [col("p", T_LONGLONG)], []))
+            c.execute(sid, [p_int(T_LONGLONG, 78)], [op_completed(2, 0)], rebind=False)
+        elif variant == 2:
+            # new parameter count after re-prepare
+            c.prepare("S", prep_ok(sid, [col("p", T_TINY)], []))
+            c.execute(sid, [p_int(T_TINY, 1)], [op_completed(1, 0)])
+            c.prepare("S2", prep_ok(sid, [col("a", T_VAR_STRING), col("b", T_LONGLONG), col("c", T_TINY)], []))
+            c.execute(sid, [p_bytes(T_VAR_STRING, b"xyz"), p_int(T_LONGLONG, 2**40), p_int(T_TINY, 3)], [op_completed(2, 0)])
+            c.execute(sid, [p_bytes(T_VAR_STRING, b"w"), p_int(T_LONGLONG, 9), p_int(T_TINY, 4)], [op_completed(3, 0)], rebind=False)
+        else:
+            # prepare / close / prepare again with the same id, long data in between for another id
+            c.prepare("S", prep_ok(sid, [col("p", T_BLOB)], []))
+            c.prepare("T", prep_ok(sid ^ 1, [col("p", T_BLOB)], []))
+            c.cmd(com_long_data(sid ^ 1, 0, b"other"))
+            c.cmd(com_close(sid))
+            c.prepare("S3", prep_ok(sid, [col("p", T_BLOB)], []))
+            c.execute(sid, [p_bytes(T_BLOB, b"mine")], [op_completed(1, 0)])
+            c.execute(sid ^ 1, [p_long(T_BLOB)], [op_completed(1, 0)])
+        c.ping()
+        c.quit()
+        out.append(c.build())
+    return out
+
+
+def _c12_extra(rng, tier):
+    out = []
+    # (a) a complete command that ends exactly where the buffer the server offered ends
+    sizes = []
+    for k in range(0, 4 if tier == "quick" else 6):
+        for d in (-1, 0, 1):
+            sizes.append(4096 * (1 << k) + d)
+    for i, total in enumerate(sizes):
+        for mode in ("lockstep", "pipelined"):
+            c = Conv("C12-fill%02d-%s" % (i, mode[0]), mode=mode)
+            body = bytes(65 + (j % 26) for j in range(total - 5))     # header 4 + command byte 1 + body
+            c.query(body, [op_completed(1, 1)])
+            c.ping()
+            c.query(b"second", rows_program(2))
+            c.quit()
+            c.chunks, c.then = [], 0                                  # always hand over as much as the server offers
+            sc = c.build()
+            sc["transport"]["chunks"] = []
+            sc["transport"]["then"] = 0
+            out.append(sc)
+    # (b) stale statement handles in lock-step (the client waits for whatever the server says)
+    for i in range(12 if tier == "quick" else 80):
+        c = Conv("C12-stale%02d" % i, mode="lockstep")
+        c.prepare("S", prep_ok(3, [], []))
+        c.execute(3, [], [op_completed(1, 1)])
+        if i % 3 == 0:
+            c.cmd(com_close(3))
+            c.cmd(com_execute(3, []))
+        elif i % 3 == 1:
+            c.cmd(com_execute(99, []))
+        else:
+            c.cmd(com_long_data(42, 0, b"zz"), reply=False)
+        c.ping()
+        c.quit()
+        out.append(c.build())
+    return out
+
+
+gen_C10 = (lambda f: (lambda rng, tier: f(rng, tier) + _c10_reprepare(rng, tier)))(gen_C10)
+gen_C12 = (lambda f: (lambda rng, tier: f(rng, tier) + _c12_extra(rng, tier)))(gen_C12)
+gen_C19 = (lambda f: (lambda rng, tier, probe=None: f(rng, tier, probe) + GB.gen_C19_big(rng, tier)))(gen_C19)
